@@ -210,6 +210,7 @@ func init() {
 			"documented exception). R-IDLECHECK - every path from one Decode of the read loop to the next passes the call that clears the running flag when nothing is pending. R-BLOCKLOCK has no exception any more: the signal hand-over under the mutex is a demonstrated deadlock (known finding). R-ONEDECODER - the client has exactly one CBOR stream decoder, created in its constructor. NOT decided: liveness under all schedules as such; deadlocks that need reasoning about the peer.",
 		Assumptions: []string{"sync.Cond has no spurious wake-ups (Go semantics)", "the peer behaves correctly (property premise)"},
 		Rules: []func(*Ctx){
+			func(c *Ctx) { c.rulePairInsert("R-PAIR") },
 			func(c *Ctx) { c.ruleSigChan("R-SIGCHAN") },
 			func(c *Ctx) { c.ruleOneDecoder("R-ONEDECODER") },
 			func(c *Ctx) { c.ruleIdleCheck("R-IDLECHECK") },
@@ -246,6 +247,7 @@ func init() {
 			"R-STRICTDEC - every CBOR decoding call in the client's methods uses the client's strict DecMode (unknown fields are errors), never the package-level cbor.Unmarshal / NewDecoder; R-DECODEEXIT - as in C07. NOT decided: which corruptions the CBOR decoder reports as errors; timing.",
 		Assumptions: []string{"every decode call may fail at any time (the property's fault model)"},
 		Rules: []func(*Ctx){
+			func(c *Ctx) { c.ruleClientPanic("R-CLIENTPANIC"); c.R.Floor("R-CLIENTPANIC", 1) },
 			func(c *Ctx) { c.ruleWorkDone("R-WORKDONE") },
 			func(c *Ctx) { c.ruleDecodeExit("R-DECODEEXIT", c.scopePkg("atp")); c.R.Floor("R-DECODEEXIT", 2) },
 			func(c *Ctx) { c.ruleStrictDec("R-STRICTDEC"); c.R.Floor("R-STRICTDEC", 5) },
